@@ -228,6 +228,52 @@ func extractC15() *lean {
 	l.def("strictTLSErrorGuard", "List String", leanStrList(strip(strictGuard)), strip(strictGuard))
 	before := strictPos > 0 && dummyPos > 0 && strictPos < dummyPos
 	l.def("strictErrorBeforeDummy", "Bool", c15Bool(before), before)
+
+	// the server side TLS configuration of the connection manager: every `tlsConfig.<field> = <expr>` of newServerTLSConfig,
+	// the fields of the literal in baseTLSConfig, and the constant core.MinTLSVersion
+	_, gcfg := parseFile("network/transport/grpc/config.go")
+	var serverTLS []string
+	if fd := funcDecl(gcfg, "newServerTLSConfig"); fd != nil {
+		ast.Inspect(fd, func(n ast.Node) bool {
+			if as, ok := n.(*ast.AssignStmt); ok && len(as.Lhs) == 1 && len(as.Rhs) == 1 {
+				if sel, ok := as.Lhs[0].(*ast.SelectorExpr); ok && exprString(sel.X) == "tlsConfig" && sel.Sel.Name != "Certificates" {
+					serverTLS = append(serverTLS, sel.Sel.Name+"="+c15Src(as.Rhs[0]))
+				}
+			}
+			return true
+		})
+	}
+	l.def("serverTLSConfig", "List String", leanStrList(serverTLS), serverTLS)
+	var baseTLS []string
+	if fd := funcDecl(gcfg, "baseTLSConfig"); fd != nil {
+		ast.Inspect(fd, func(n ast.Node) bool {
+			if cl, ok := n.(*ast.CompositeLit); ok && c15Src(cl.Type) == "tls.Config" {
+				for _, e := range cl.Elts {
+					if kv, ok := e.(*ast.KeyValueExpr); ok {
+						baseTLS = append(baseTLS, c15Src(kv.Key)+"="+c15Src(kv.Value))
+					}
+				}
+			}
+			return true
+		})
+	}
+	l.def("baseTLSConfig", "List String", leanStrList(baseTLS), baseTLS)
+	_, ctls := parseFile("core/tls.go")
+	minVer := "MISSING"
+	for _, d := range ctls.Decls {
+		if gd, ok := d.(*ast.GenDecl); ok {
+			for _, sp := range gd.Specs {
+				if vs, ok := sp.(*ast.ValueSpec); ok {
+					for i, nm := range vs.Names {
+						if nm.Name == "MinTLSVersion" && i < len(vs.Values) {
+							minVer = c15Src(vs.Values[i])
+						}
+					}
+				}
+			}
+		}
+	}
+	l.def("minTLSVersion", "String", fmt.Sprintf("%q", minVer), minVer)
 	l.def("authenticateSetsFlag", "Bool", c15Bool(setsAuth), setsAuth)
 	return l
 }
